@@ -127,6 +127,16 @@ def run(ctx):
             ctx.ob(R1, dm.qual, f"partial wildcard: escaped left-most label with \\* -> {repl!r}", ok and ok2, why, node=a)
         else:
             ctx.ob(R1, dm.qual, f"fragment `{info}` recognised", False, "unrecognised pattern fragment", node=a)
+    # a label that is only "*" must have its own fragment (min 1); the partial-wildcard expansion (min 0) must not see it
+    whole = [a for a in appends if _classify_fragment(a.args[0], fold, dm.module)[0] == "pattern" and _dotless_repeat(_classify_fragment(a.args[0], fold, dm.module)[1], 1)[0]
+             and astq.enclosing(a, ast.If) is not None and astq.text(astq.enclosing(a, ast.If).test).replace("'", '"') == f'{leftmost} == "*"']
+    partial = [a for a in appends if _classify_fragment(a.args[0], fold, dm.module)[0] == "escaped-with-replacement"]
+    ok = bool(whole)
+    ctx.ob(R1, dm.qual, "a whole-label wildcard has its own fragment matching a non-empty label", ok,
+           "" if ok else "a bare `*` label falls into the partial-wildcard expansion, whose class may match nothing: `*.a.b` accepts the host `.a.b`", node=dm.node)
+    for a in partial:
+        okp = bool(whole) and any(astq.in_body_of(a, astq.enclosing(w, ast.If), "orelse") for w in whole)
+        ctx.ob(R1, dm.qual, "the partial-wildcard expansion is only reached when the label is not a bare `*`", okp, node=a)
     rets = [r for r in astq.walk_fn(dm.node) if isinstance(r, ast.Return) and isinstance(r.value, ast.Call) and isinstance(r.value.func, ast.Attribute) and r.value.func.attr in ("match", "fullmatch", "search")]
     ctx.ob(R1, dm.qual, "the compiled pattern is applied to the whole hostname", bool(rets) and rets[0].value.func.attr in ("match", "fullmatch") and astq.text(rets[0].value.args[0]) == "hostname")
     # fast path without wildcard: exact case-insensitive equality
